@@ -95,7 +95,7 @@ func TestC01Replay(t *testing.T) {
 			firstDiff = t1[lo:hi]
 		}
 		_ = sort.Strings
-		out.Emit(Case{Coq: fmt.Sprintf("ReplayCase %d %s %s %s %s %d %d", hs, cbool(t1 == t2), cbool(s1 == s2 && n1 == n2), cbool(e1 == e2 && ne1 == ne2), cbool(h1 == h2), n1, ne1),
+		out.Emit(Case{Coq: fmt.Sprintf("HistReplayCase %d %s %s %s %s %d %d", hs, cbool(t1 == t2), cbool(s1 == s2 && n1 == n2), cbool(e1 == e2 && ne1 == ne2), cbool(h1 == h2), n1, ne1),
 			Kind: fmt.Sprintf("replay/mode=%d", mode), Nontrivial: n1 > 100 && ne1 > 20, Key: fmt.Sprint(hs),
 			Human: map[string]interface{}{"history_seed": hs, "mode": mode, "store_entries": n1, "events": ne1, "halted": h1, "first_difference": firstDiff,
 				"store_digests": []string{s1, s2}, "event_digests": []string{e1, e2}}})
